@@ -39,6 +39,7 @@ hc.conc = _conc
 
 
 WITNESS = hj.REPLAY.replace("clause = D['clause']", "clause = 'transition'")
+WITNESS_C08 = hj.REPLAY.replace("clause = D['clause']", "clause = 'replay'")
 
 
 def scripts_for(clauses):
@@ -66,6 +67,8 @@ def arg_for(method, kind, pre, eng):
 
 
 def body_one(n, H, Ls, method, kind, clauses, phase='regular'):
+    WITNESS = WITNESS_C08 if clauses == ['log'] else globals()['WITNESS']
+
     def body(R):
         hjmod = sys.modules['athlib.highjump']
         eng = E.cur()
@@ -219,6 +222,54 @@ def body_commute(n, H, Ls, m1, a1, m2, a2):
     return body
 
 
+def body_tieorder(n, H, Ls, method, arg):
+    """the order of equally ranked athletes inside ranked_jumpers (history: the previous position) must stay unobservable:
+    the same call from the same state with two different tie orders gives the same observables"""
+    def body(R):
+        hjmod = sys.modules['athlib.highjump']
+        eng = E.cur()
+        perms = list(itertools.permutations(range(n)))
+        p1 = perms[eng.choose(len(perms), 'perm1')]
+        p2 = perms[eng.choose(len(perms), 'perm2')]
+        if p1 >= p2:
+            raise E.PathAbort()
+        pre = hj.build_regular(hjmod, n, H, Ls, p1)
+        if pre.no_trials:
+            raise E.PathAbort()
+        for a, b in zip(p2, p2[1:]):
+            eng.add(z3.Not(pre.cm.key_lt(b, a)))          # the second order is also sorted by ranking key
+        s0 = hj.snapshot(pre.comp)
+        comp2 = hjmod.HighJumpCompetition()
+        comp2.state, comp2.heights, comp2.bar_height, comp2.actions = pre.comp.state, list(pre.comp.heights), pre.comp.bar_height, []
+        js2 = []
+        for jm in pre.comp.jumpers:
+            k = hjmod.Jumper(bib=jm.bib, order=jm.order)
+            for f in ('consecutive_failures', 'eliminated', 'dismissed', 'round_lim', 'highest_cleared_index', 'highest_cleared', '_place'):
+                setattr(k, f, getattr(jm, f))
+            k.attempts_by_height = list(jm.attempts_by_height)
+            js2.append(k)
+            comp2.jumpers.append(k)
+            comp2.jumpers_by_bib[k.bib] = k
+        comp2.ranked_jumpers = [js2[i] for i in p2]
+        data = JsonInput(lambda m: json.dumps({'pre': hj.conc_snapshot(m, s0), 'calls': [[method, arg]], 'tie_orders': [[hj.BIBS[i] for i in p1], [hj.BIBS[i] for i in p2]]}))
+        ins = {'data': data}
+        R.partial = {'inputs': ins}
+        r1, _ = hj.apply_call(pre.comp, hjmod, method, arg)
+        r2, _ = hj.apply_call(comp2, hjmod, method, arg)
+        if r1 != r2:
+            raise hc.PathFail('tie-order', 'acceptance %s vs %s' % (r1, r2))
+        if r1 == 'ok':
+            sA, sB = hj.snapshot(pre.comp), hj.snapshot(comp2)
+            if sA['state'] != sB['state']:
+                raise hc.PathFail('tie-order', 'state %s vs %s' % (sA['state'], sB['state']))
+            parts = [hj.snap_equal(sA, sB, fields=('state', 'heights', 'bar', 'cols', 'best', 'eliminated'))]
+            for ja, jb in zip(sA['jumpers'], sB['jumpers']):
+                parts.append(z3.Implies(ja['hci'] >= 0, ja['place'] == jb['place']))
+            eng.check(z3.And(parts), 'tie-order')
+        return {'inputs': ins, 'observe': []}
+    return body
+
+
 def worker(job):
     kind = job[0]
     res = JobResult()
@@ -230,6 +281,14 @@ def worker(job):
         R = hc.Runner(res, plain(), 'athlib.highjump.HighJumpCompetition.%s' % method, scripts_for(clauses + ['inv', 'jumpoff-result']), max_paths=200000, deadline=time.time() + budget)
         try:
             R.explore(body_one(n, H, Ls, method, akind, clauses, phase), label)
+        except E.Budget as e:
+            res.inconclusive.append('%s: %s' % (label, e))
+    elif kind == 'tieorder':
+        _, n, H, Ls, method, arg, budget = job
+        label = 'tie order: %s(%s) from n=%d H=%d columns=%s' % (method, arg, n, H, list(Ls))
+        R = hc.Runner(res, plain(), 'athlib.highjump.HighJumpCompetition._rank', scripts_for(['tie-order']), max_paths=200000, deadline=time.time() + budget)
+        try:
+            R.explore(body_tieorder(n, H, Ls, method, arg), label)
         except E.Budget as e:
             res.inconclusive.append('%s: %s' % (label, e))
     else:
@@ -292,6 +351,30 @@ def jobs_commute(nmax, Hmax, budget):
             for m1 in hj.TRIALS:
                 for m2 in hj.TRIALS:
                     jobs.append(('commute', n, H, Ls, m1, a, m2, b, budget))
+    return jobs
+
+
+def jobs_commute_three(budget):
+    """three athletes, everybody on the last height (the situations in which ties for first and jump-offs arise)"""
+    jobs = []
+    for H in (1,):
+        Ls = (H, H, H)
+        for a, b in itertools.combinations(hj.BIBS[:3], 2):
+            for m1 in ('failed', 'cleared', 'retired'):
+                for m2 in ('failed', 'cleared', 'retired'):
+                    jobs.append(('commute', 3, H, Ls, m1, a, m2, b, budget))
+    return jobs
+
+
+def jobs_tieorder(nmax, Hmax, budget, three=True):
+    jobs = []
+    sh = [x for x in shapes(nmax, Hmax) if x[0] >= 2 and x[1] >= 1]
+    if three and nmax < 3:
+        sh += [(3, 1, (1, 1, 1)), (3, 2, (2, 2, 2))]
+    for (n, H, Ls) in sh:
+        for b in hj.BIBS[:n]:
+            for m in ('failed', 'cleared', 'retired'):
+                jobs.append(('tieorder', n, H, Ls, m, b, budget))
     return jobs
 
 
